@@ -661,6 +661,15 @@ def retry_check(doc, eng, exc, log):
         # the initial values of the fields (ones for the volume-ratio field of a mixed container)
         last = [f.values.copy() for f in world.World(copy.deepcopy({**doc, "faults": []})).field.fields]
     w.set_values(last)
+    for it_, spec_ in zip(w.items, doc["items"]):
+        if spec_["type"] == "SolidBodyNearlyIncompressible":
+            # the condensed (p, J) state follows the field by a linearised update from the last field
+            # it saw (here: the abandoned iterate); the caller lets the body see the restored field once
+            # before it solves on (robustness of that update against large jumps is not part of C15)
+            # A non-finite stored state (diverged iterate) is something the body must recover from
+            # by itself (fix e9877378): no help from the caller then.
+            if np.isfinite(it_.results.state.u).all() and np.isfinite(it_.results.state.J).all():
+                it_.assemble.vector(w.field)
     j, i = flat_index(doc, ncb)  # first substep to be (re-)run
     rest = []
     s = copy.deepcopy(doc["steps"][j])
